@@ -130,6 +130,187 @@ theorem tar_complete (K : Inflate) (f : TileFormat) (c : TComp) (ts : List TileF
     simp only [beq_iff_eq]
     exact this
 
+/-! ### directory trees -/
+
+theorem find_unique (l : List ((Nat × Nat × Nat) × Bytes)) (hnd : (l.map (·.1)).Nodup) (p : (Nat × Nat × Nat) × Bytes)
+    (hp : p ∈ l) : (l.find? (fun t => t.1 == p.1)).map (·.2) = some p.2 := by
+  induction l with
+  | nil => cases hp
+  | cons a l ih =>
+    simp only [List.map_cons, List.nodup_cons] at hnd
+    simp only [List.find?_cons]
+    cases hp with
+    | head => simp
+    | tail _ hm =>
+      have hne' : a.1 ≠ p.1 := by
+        intro e
+        apply hnd.1
+        rw [List.mem_map]
+        exact ⟨_, hm, e.symm⟩
+      have : (a.1 == p.1) = false := by
+        rw [Bool.eq_false_iff]; intro h; exact hne' (by simpa using h)
+      simp only [this]
+      exact ih hnd.2 hm
+
+/-- a tile file of a directory tree (no `./`) -/
+def dirFile (f : TileFormat) (c : TComp) (t : TileFile) : File := (some (formatName t.z t.x t.y f c), t.payload)
+
+theorem dirStep_tile (K : Inflate) (f : TileFormat) (c : TComp) (t : TileFile) (h : t.ok) (s : State)
+    (hf : s.fmt = none ∨ s.fmt = some f) (hc : s.comp = none ∨ s.comp = some c) :
+    dirStep K s (dirFile f c t) = .ok ⟨some f, some c, ((t.x, t.y, t.z), t.payload) :: s.tiles⟩ := by
+  unfold dirStep dirFile
+  simp only [VtProofs.TarDir.splitSlash_formatName]
+  have h1 : parseU8 (natToDec t.z) = some t.z := VtProofs.TarDir.parseUnsigned_natToDec 256 t.z (by have := h.1; omega)
+  have h2 : parseU32 (natToDec t.x) = some t.x := VtProofs.TarDir.parseUnsigned_natToDec _ t.x h.2.1
+  have h3 : parseU32 (natToDec t.y) = some t.y := VtProofs.TarDir.parseUnsigned_natToDec _ t.y h.2.2
+  simp only [h1, h2, VtProofs.TarDir.compFrom_ext, VtProofs.TarDir.fmtFrom_ext, h3]
+  unfold addTile
+  have g1 : (s.fmt.isSome && decide (s.fmt ≠ some f)) = false := by
+    rcases hf with h | h <;> simp [h]
+  have g2 : (s.comp.isSome && decide (s.comp ≠ some c)) = false := by
+    rcases hc with h | h <;> simp [h]
+  rw [g1, g2]
+  have : ¬ (t.z > 31) := by have := h.1; omega
+  simp [this]
+
+theorem fold_dir_tiles (K : Inflate) (f : TileFormat) (c : TComp) : ∀ (ts : List TileFile) (s : State),
+    (∀ t ∈ ts, t.ok) → (s.fmt = none ∨ s.fmt = some f) → (s.comp = none ∨ s.comp = some c) →
+    ∃ s', foldFiles (dirStep K) s (ts.map (dirFile f c)) = .ok s' ∧
+      s'.tiles = (ts.map fun t => ((t.x, t.y, t.z), t.payload)).reverse ++ s.tiles ∧
+      (ts ≠ [] → s'.fmt = some f ∧ s'.comp = some c) := by
+  intro ts
+  induction ts with
+  | nil => intro s _ _ _; exact ⟨s, rfl, by simp, by simp⟩
+  | cons t ts ih =>
+    intro s hok hf hc
+    have hstep := dirStep_tile K f c t (hok t (by simp)) s hf hc
+    obtain ⟨s', h1, h2, h3⟩ := ih ⟨some f, some c, ((t.x, t.y, t.z), t.payload) :: s.tiles⟩
+      (fun u hu => hok u (by simp [hu])) (Or.inr rfl) (Or.inr rfl)
+    refine ⟨s', ?_, ?_, ?_⟩
+    · simp only [List.map_cons, foldFiles, hstep]
+      exact h1
+    · rw [h2]; simp
+    · intro _
+      by_cases hts : ts = []
+      · subst hts
+        simp [foldFiles] at h1
+        subst h1
+        exact ⟨rfl, rfl⟩
+      · exact h3 hts
+
+/-- **C16 (directory)**: a tree whose files are `z/x/y.<fmt>[.<comp>]` (one format, one compression,
+    pairwise different coordinates; any walk order inside the sorted-path model) is opened and every
+    lookup returns the file's content, `None` elsewhere -/
+theorem dir_complete (K : Inflate) (f : TileFormat) (c : TComp) (ts : List TileFile) (hne : ts ≠ [])
+    (hok : ∀ t ∈ ts, t.ok) (hnd : (ts.map fun t => (t.x, t.y, t.z)).Nodup) :
+    ∃ r, openDir K (ts.map (dirFile f c)) = .ok r ∧ r.fmt = f ∧ r.comp = c ∧
+      (∀ t ∈ ts, getTile r t.x t.y t.z = .ok (some t.payload)) ∧
+      (∀ x y z, (∀ t ∈ ts, (t.x, t.y, t.z) ≠ (x, y, z)) → getTile r x y z = .ok none) := by
+  -- sorting the files = mapping the sorted tile list
+  let le : File → File → Bool := fun a b => decide (String.ofList (a.1.getD []) ≤ String.ofList (b.1.getD []))
+  have hsort : sortFiles (ts.map (dirFile f c)) =
+      (ts.mergeSort (fun a b => le (dirFile f c a) (dirFile f c b))).map (dirFile f c) := by
+    unfold sortFiles
+    exact (List.map_mergeSort (r := fun a b => le (dirFile f c a) (dirFile f c b)) (s := le) (f := dirFile f c) (l := ts)
+      (fun _ _ _ _ => rfl)).symm
+  generalize hts' : ts.mergeSort (fun a b => le (dirFile f c a) (dirFile f c b)) = ts' at hsort
+  have hperm : ts'.Perm ts := by rw [← hts']; exact List.mergeSort_perm _ _
+  have hne' : ts' ≠ [] := by
+    intro e; rw [e] at hperm
+    exact hne (List.Perm.eq_nil hperm.symm)
+  have hok' : ∀ t ∈ ts', t.ok := fun t ht => hok t (hperm.mem_iff.1 ht)
+  have hnd' : (ts'.map fun t => (t.x, t.y, t.z)).Nodup := ((hperm.map _).nodup_iff).2 hnd
+  obtain ⟨s', h1, h2, h3⟩ := fold_dir_tiles K f c ts' ⟨none, none, []⟩ hok' (Or.inl rfl) (Or.inl rfl)
+  obtain ⟨hf, hc⟩ := h3 hne'
+  simp only [List.append_nil] at h2
+  have htl : s'.tiles ≠ [] := by
+    rw [h2]
+    cases ts' with
+    | nil => exact absurd rfl hne'
+    | cons a as => simp
+  have hfin : finish s' = .ok ⟨f, c, s'.tiles⟩ := by
+    unfold finish
+    cases hst : s'.tiles with
+    | nil => exact absurd hst htl
+    | cons a as => simp only [hf, hc]
+  have hndl : ((ts'.map fun t => ((t.x, t.y, t.z), t.payload)).reverse.map (·.1)).Nodup := by
+    rw [List.map_reverse, (List.reverse_perm _).nodup_iff, List.map_map]
+    exact hnd'
+  refine ⟨⟨f, c, s'.tiles⟩, by unfold openDir; rw [hsort, h1]; exact hfin, rfl, rfl, ?_, ?_⟩
+  · intro t ht
+    unfold getTile
+    simp only [h2]
+    congr 1
+    have hmem : ((t.x, t.y, t.z), t.payload) ∈ (ts'.map fun t => ((t.x, t.y, t.z), t.payload)).reverse := by
+      rw [List.mem_reverse, List.mem_map]; exact ⟨t, hperm.mem_iff.2 ht, rfl⟩
+    exact find_unique _ hndl _ hmem
+  · intro x y z hno
+    unfold getTile
+    simp only [h2]
+    congr 1
+    rw [Option.map_eq_none_iff, List.find?_eq_none]
+    intro p hp
+    rw [List.mem_reverse, List.mem_map] at hp
+    obtain ⟨t, ht, rfl⟩ := hp
+    have := hno t (hperm.mem_iff.1 ht)
+    simp only [beq_iff_eq]
+    exact this
+
+/-! ### coverage ⊇ tiles (tar and directory readers share `cover`) -/
+
+theorem fold_cover_tiles (z : Nat) : ∀ (fl : List ((Nat × Nat × Nat) × Bytes)) (acc : Option BBox),
+    (∀ a, acc = some a → ∃ box, fl.foldl (fun acc t => match acc with
+        | none => some ⟨z, t.1.1, t.1.2.1, t.1.1, t.1.2.1⟩
+        | some (b : BBox) => some ⟨z, min b.xmin t.1.1, min b.ymin t.1.2.1, max b.xmax t.1.1, max b.ymax t.1.2.1⟩) acc = some box ∧
+        box.xmin ≤ a.xmin ∧ a.xmax ≤ box.xmax ∧ box.ymin ≤ a.ymin ∧ a.ymax ≤ box.ymax ∧ (a.level = z → box.level = z)) ∧
+    (∀ t ∈ fl, ∃ box, fl.foldl (fun acc t => match acc with
+        | none => some ⟨z, t.1.1, t.1.2.1, t.1.1, t.1.2.1⟩
+        | some (b : BBox) => some ⟨z, min b.xmin t.1.1, min b.ymin t.1.2.1, max b.xmax t.1.1, max b.ymax t.1.2.1⟩) acc = some box ∧
+        box.level = z ∧ box.xmin ≤ t.1.1 ∧ t.1.1 ≤ box.xmax ∧ box.ymin ≤ t.1.2.1 ∧ t.1.2.1 ≤ box.ymax) := by
+  intro fl
+  induction fl with
+  | nil =>
+    intro acc
+    exact ⟨fun a ha => ⟨a, by simpa using ha, Nat.le_refl _, Nat.le_refl _, Nat.le_refl _, Nat.le_refl _, id⟩,
+      fun t ht => (by cases ht)⟩
+  | cons c rest ih =>
+    intro acc
+    simp only [List.foldl_cons]
+    cases acc with
+    | none =>
+      have ⟨i1, i2⟩ := ih (some ⟨z, c.1.1, c.1.2.1, c.1.1, c.1.2.1⟩)
+      refine ⟨fun a ha => (by cases ha), ?_⟩
+      intro t ht
+      cases ht with
+      | head =>
+        obtain ⟨box, h1, h2, h3, h4, h5, h6⟩ := i1 _ rfl
+        exact ⟨box, h1, h6 rfl, by simpa using h2, by simpa using h3, by simpa using h4, by simpa using h5⟩
+      | tail _ ht => exact i2 t ht
+    | some a0 =>
+      have ⟨i1, i2⟩ := ih (some ⟨z, min a0.xmin c.1.1, min a0.ymin c.1.2.1, max a0.xmax c.1.1, max a0.ymax c.1.2.1⟩)
+      obtain ⟨box, h1, h2, h3, h4, h5, h6⟩ := i1 _ rfl
+      simp only at h2 h3 h4 h5 h6
+      constructor
+      · intro a ha
+        injection ha with ha; subst ha
+        exact ⟨box, h1, by omega, by omega, by omega, by omega, fun _ => h6 trivial⟩
+      · intro t ht
+        cases ht with
+        | head => exact ⟨box, h1, h6 trivial, by omega, by omega, by omega, by omega⟩
+        | tail _ ht => exact i2 t ht
+
+/-- every tile the tar / directory reader holds lies inside the advertised box of its level -/
+theorem cover_contains (r : Reader) (t : (Nat × Nat × Nat) × Bytes) (ht : t ∈ r.tiles) (hz : t.1.2.2 ≤ 31) :
+    ∃ box ∈ cover r, box.level = t.1.2.2 ∧ box.contains2 t.1.1 t.1.2.1 = true := by
+  have hmem : t ∈ r.tiles.filter (fun u => u.1.2.2 == t.1.2.2) := by simp [ht]
+  obtain ⟨box, h1, h2, h3, h4, h5, h6⟩ := (fold_cover_tiles t.1.2.2 _ none).2 t hmem
+  refine ⟨box, ?_, h2, ?_⟩
+  · unfold cover
+    rw [List.mem_filterMap]
+    exact ⟨t.1.2.2, by rw [List.mem_range]; omega, h1⟩
+  · simp only [BBox.contains2, Bool.and_eq_true, decide_eq_true_eq]
+    omega
+
 /-! ### MBTiles: zoom gaps -/
 
 theorem filter_all {α} (l : List α) : l.filter (fun _ => true) = l := by
